@@ -1,6 +1,7 @@
 import HcipyVerif.Model.Proto
 import HcipyVerif.Model.Zernike
 import HcipyVerif.Model.ZernikeArr
+import HcipyVerif.Model.ZernikeGrid
 
 /-!
 Line-protocol front end of the C13 model.
@@ -29,6 +30,9 @@ C13 defpoly n m           -> ok [q…]             `radialDef n |m|`: coefficien
 C13 polyeval n m r        -> ok q                `peval (radialPoly n |m|) r`
 C13 ortho n n' m          -> ok q                `pint01 (pshift 1 (pmul (radialPoly n m) (radialPoly n' m)))` = ∫₀¹ R_n^m R_n'^m r dr
 C13 memo D r c s old|new n:m:cut,…  -> ok [q…]   request history against one cache at one point
+C13 gop reverse | scale kx ky | shift dx dy | rotate c s   `GOp.xy / GOp.polar / GOp.sep` on the stored points (in place; `err value` where
+                                                 a polar grid has no exact answer: shift, anisotropic scale)
+C13 getpts                -> ok cart [x…] [y…] | polar [r…] [c…] [s…] | sep [R…] [c…] [s…]   the stored points
 C13 pts sep [R…] [c…] [s…]                       store a separated polar grid (axes R and (cos θ, sin θ)); `mode` then
                                                  answers in the code's layout (`plainA`: index iθ·nr + ir)
 C13 amemo old|new D n:m:cut,…  -> ok step|step|… array-level cache model (`runA`) on the stored polar / separated grid;
@@ -163,8 +167,8 @@ def step (st : St) : List String → St × String
     | some n, some m, some D, some cut =>
       if D = 0 || !valid n m then (st, "err value") else
       let out := match st.pts with
-        | .polar p => p.map fun (r, c, s) => modeQCut n m D r c s cut
-        | .cart p => p.map fun (x, y) => modeQXYCut n m D x y cut
+        | .polar p => modesPolar n m D cut p
+        | .cart p => modesXY n m D cut p
         | .sep R d => plainA D (.sep R d) ⟨n, m, cut⟩
       (st, "ok " ++ showRatList out)
     | _, _, _, _ => (st, "bad-op")
@@ -251,6 +255,29 @@ def step (st : St) : List String → St × String
       else if which == "old" then (st, "ok " ++ showRatList (runMemoSeparatedOld D r c s reqs []))
       else (st, "bad-op")
     | _, _, _, _, _ => (st, "bad-op")
+  | "gop" :: op =>
+    let o? : Option GOp := match op with
+      | ["reverse"] => some .reverse
+      | ["scale", kx, ky] => do pure (.scale (← parseRat? kx) (← parseRat? ky))
+      | ["shift", dx, dy] => do pure (.shift (← parseRat? dx) (← parseRat? dy))
+      | ["rotate", c, s] => do pure (.rotate (← parseRat? c) (← parseRat? s))
+      | _ => none
+    match o? with
+    | none => (st, "bad-op")
+    | some o =>
+      match st.pts with
+      | .cart p => ({ st with pts := .cart (o.xy p) }, "ok")
+      | .polar p => match o.polar p with
+        | some p' => ({ st with pts := .polar p' }, "ok")
+        | none => (st, "err value")
+      | .sep R d => match o.sep (R, d) with
+        | some (R', d') => ({ st with pts := .sep R' d' }, "ok")
+        | none => (st, "err value")
+  | ["getpts"] =>
+    (st, match st.pts with
+      | .cart p => s!"ok cart {showRatList (p.map (·.1))} {showRatList (p.map (·.2))}"
+      | .polar p => s!"ok polar {showRatList (p.map (·.1))} {showRatList (p.map (·.2.1))} {showRatList (p.map (·.2.2))}"
+      | .sep R d => s!"ok sep {showRatList R} {showRatList (d.map (·.1))} {showRatList (d.map (·.2))}")
   | _ => (st, "bad-op")
 
 end HcipyVerif.Driver.C13
